@@ -17,11 +17,13 @@
     [C09_trailing_dd_accepted]); after the drop — or after a spec-level "--", whose matcher only raises
     the same flag ([C09_spec_dd]) — every token is taken verbatim by the positional matcher and no
     option matcher consumes anything ([C09_verbatim], [C09_no_option_after_dd]).
-    NOT proved: that a "--" written in the spec acts as one present at that position of the command
-    line, beyond these two matcher facts (the statement needs the position of the atom in a run);
-    covered by the check on five spec pairs with/without "--" x random heads x arbitrary tails, and by
-    the reference semantics on every claimed case. *)
-From MowCli Require Import Base Nfa Matchers Apply Values Flow Cmd View ApplyProofs TermProofs ViewProofs ReadProofs InsertProofs.
+    [C09_spec_dd_like_cmdline_dd]: crossing a "--" written in the spec leads to the very configuration
+    that the drop of a "--" present at that position of the command line leads to (options ended, the
+    same tokens left, nothing bound). NOT proved beyond this step-level statement: a whole-run
+    transformation between a spec with "--" and the command line with "--" inserted where the atom is
+    crossed; covered by the check on five spec pairs with/without "--" x random heads x arbitrary
+    tails, and by the reference semantics on every claimed case. *)
+From MowCli Require Import Base Nfa Matchers Apply Values Flow Cmd View ApplyProofs TermProofs ViewProofs ReadProofs InsertProofs ThompsonProofs.
 
 Theorem C09_dropped_once :
   forall args ro, strip (fst (strip args ro)) (snd (strip args ro)) = strip args ro.
@@ -102,6 +104,23 @@ Theorem C09_group_cannot_tell_open_from_ended :
   forall js q r, allpos q -> m_group D js q r = None.
 Proof. exact m_group_allpos. Qed.
 
+(** a "--" written in the spec leads to the very configuration that dropping a "--" present at that
+    position of the command line leads to: options ended, the same tokens left, nothing bound *)
+Theorem C09_spec_dd_like_cmdline_dd :
+  forall D a c' b,
+    mstep D LDD (a, true) c' b \/ mstep D LDD (a, false) c' b ->
+    b = [] /\ (forall t rest, a = t :: rest -> str_eqb t s_dd = false -> c' = strip (s_dd :: a) false).
+Proof.
+  intros D a c' b H.
+  assert (X : forall r, mstep D LDD (a, r) c' b -> b = [] /\ c' = (fst (strip a r), true)).
+  { intros r Hm. unfold mstep in Hm. cbn [run_matcher fst snd] in Hm. unfold m_dd in Hm.
+    injection Hm as E1 E2 E3. split; [auto|]. destruct c' as [x y]. cbn [fst snd] in *. now subst. }
+  destruct H as [H|H]; destruct (X _ H) as [-> ->]; (split; [reflexivity|]); intros t rest -> Ht.
+  - rewrite strip_ro_true. cbn [fst strip]. now rewrite str_eqb_refl.
+  - cbn [strip fst]. rewrite Ht. cbn [negb andb fst]. now rewrite str_eqb_refl.
+Qed.
+
+Print Assumptions C09_spec_dd_like_cmdline_dd.
 Print Assumptions C09_insertion_same_result.
 Print Assumptions C09_insertion_changes_nothing.
 Print Assumptions C09_inserted_dd_same_parse.
